@@ -69,7 +69,7 @@ def cases(tier, seed):
             for h in range(n_hist):
                 hist = agentops.random_history(rng, max_len, algo)
                 if h == 0:
-                    hist = ["learn", "learn", "learn"]
+                    hist = ["act", "learn", "learn", "learn", "act"]
                 elif not hist:
                     hist = ["mut:arch", "learn"]
                 for path in ("load", "load_checkpoint"):
